@@ -133,6 +133,17 @@ func c04Round(c *core.Ctx, round int) {
 	}
 	// configuration phase is over; from here on the engine is only used
 	filters, tags, blocks := engineNames(e)
+	if len(filters) == 0 { // the tables could not be read by reflection (renamed fields): use the static lists
+		filters = StaticFilters
+		c.Obs("filter_table_not_reflectable", 1)
+	}
+	if len(tags)+len(blocks) == 0 {
+		for name := range c04TagTemplates {
+			tags = append(tags, name)
+		}
+		sort.Strings(tags)
+		c.Obs("tag_table_not_reflectable", 1)
+	}
 	var srcs []string
 	covered := map[string]bool{}
 	for _, name := range append(append([]string{}, tags...), blocks...) {
